@@ -46,6 +46,43 @@ READ_ONLY = re.compile(r"^\s*(SELECT|WITH|PRAGMA|EXPLAIN|VALUES)\b")
 _STR = re.compile(r'r(#*)"(.*?)"\1|"((?:[^"\\]|\\.)*)"', re.S)
 
 
+_FN_TY = re.compile(r"(?:dyn |impl )?(?:for<[^>]*> )?(?:core::ops::)?(?:Fn|FnOnce|FnMut|fn)\s*\(")
+
+
+def _strip_fn_types(t):
+    """remove `dyn Fn(args) -> ret` / `fn(args)` parts of a type string"""
+    out = t
+    while True:
+        m = _FN_TY.search(out)
+        if not m:
+            return out
+        i = m.end()
+        depth = 1
+        while i < len(out) and depth:
+            if out[i] in "(<[":
+                depth += 1
+            elif out[i] in ")>]":
+                depth -= 1
+            i += 1
+        # optional return type up to the next top-level , or > or end
+        j = i
+        if out[j:j + 4] == " -> ":
+            j += 4
+            depth = 0
+            while j < len(out):
+                ch = out[j]
+                if ch in "(<[":
+                    depth += 1
+                elif ch in ")>]":
+                    if depth == 0:
+                        break
+                    depth -= 1
+                elif ch in ",+" and depth == 0:
+                    break
+                j += 1
+        out = out[:m.start()] + "FNTYPE" + out[j:]
+
+
 def string_literals(text):
     out = []
     # strip line comments first (keep strings intact: naive but SQL literals hold no //)
@@ -126,10 +163,13 @@ class SqlFx:
 
     # ---- witness
     def has_witness(self, f):
+        """the function holds an open transaction by type: a parameter, captured variable or
+        receiver IS (or contains) a rusqlite Transaction / Savepoint / SqlTransaction.  A
+        function-typed parameter that merely takes a transaction argument is not a witness."""
         tys = [f.body.local_ty(i) for i in range(1, f.body.argc + 1)] + list(f.upvar_tys)
         if f.self_ty:
             tys.append(f.self_ty)
-        return any(WITNESS.search(t) for t in tys)
+        return any(WITNESS.search(_strip_fn_types(t)) for t in tys)
 
     # ---- transitive effects
     def ext_maywrite(self, term, body=None):
